@@ -8,6 +8,7 @@ import CoapLite.Lemmas.Download
 import CoapLite.Lemmas.DownloadFull
 import CoapLite.Lemmas.BlockFitsRange
 import CoapLite.Lemmas.BlockSession
+import CoapLite.Lemmas.BlockClamp
 import CoapLite.Lemmas.Shape.Block
 import CoapLite.Lemmas.Shape.BlockValue
 import CoapLite.Lemmas.Shape.Request
@@ -116,6 +117,19 @@ theorem follow_up (req : Request) (resp : Packet) (st : BlockState) (b2 : BlockV
       (∃ bs, ({ b2 with more := more } : BlockValue).enc = .ok bs ∧ resp'.getOption block2Num = some [bs]) ∧
       (∀ n, n ≠ block2Num → (cached.getOption n).isSome → resp'.getOption n = cached.getOption n) :=
   follow_up_served req resp st b2 cached chunk more M size hb1 hsz hn hb hc hr hs hcs hck hch hle
+
+/-- a follow-up may name ANY block size (the `hle` hypothesis of `follow_up` dropped): a reply served from
+the cache carries the bytes of the body AT THE OFFSET THE CLIENT NAMED – at the size it named when that
+is not above the negotiated one, else at the negotiated size (D21: block numbers and offsets still agree,
+the Block2 echo names the renumbered block) -/
+theorem follow_up_of_any_size_same_offset (req : Request) (st : BlockState) (b2 : BlockValue) (x : Nat)
+    (req' : Request) (st' : BlockState)
+    (hb : firstBlock req.message block2Num = some b2) (hx : st.cachedSzx = some x)
+    (h : handleBlock2 req st = (req', st', .ok true)) :
+    ∃ cached resp', st.cachedResponse = some cached ∧ req'.response = some resp' ∧
+      resp'.payload = (cached.payload.drop (b2.num * b2.size)).take (2 ^ (min b2.szx x + 4)) := by
+  obtain ⟨c, r, h1, h2, _, h4⟩ := handleBlock2_served_within req st b2 x req' st' hb hx h
+  exact ⟨c, r, h1, h2, h4⟩
 
 /-- END TO END, the tail of a transfer: a client that fetches blocks `k, k+1, …` of a cached
 response with one follow-up request per block (`IsFollowUp`: a Block2 option naming the block, no
